@@ -21,7 +21,8 @@ META = {
             "breaks if fix e0cd24e is reverted) and for every loop condition of the form running || index < size; the "
             "loop as it was (finding F2, fixed) keeps its refutation witness as an Example; 'a retire() racing with "
             "stop() is kept' is REFUTED for the current source (c10_retire_racing_stop_refuted, known finding).  The loop conditions, the epoch comparison, "
-            "the marker test, the batch size, the index arithmetic and Epoch's lock/unlock/tick/scan expressions are "
+            "the place where low_water_mark() is sampled (inside reclaim_start_from on every call; keep_reclaim passes only "
+            "index and tasks), the marker test, the batch size, the index arithmetic and Epoch's lock/unlock/tick/scan expressions are "
             "regenerated from garbage_collector.h / epoch.h / bounded_queue.hpp on every run.  Tie: the real "
             "GarbageCollector with its real Epoch, real ConcurrentBoundedQueue and its own std::thread runs under the "
             "deterministic scheduler (virtual usleep back-off) and every outcome (per-op results, order of reclaimer "
@@ -147,7 +148,33 @@ DIRECTED = [
     # ticket order != epoch order under a long region: the reclaimable prefix must stop at the first task that is not ready
     ("d.order", 8, "B,R,R,W,S|R,R|L,Z5000,U,L,Z5000,U", 50),
     ("d.order2", 4, "R,B,W,S|R|L,Z5000,U", 50),
+    # burst: a whole batch (capacity 128/256 queued before start, no region open) is reclaimed in one go; call 120 (248) of
+    # it is slow; thread 1 enters a region and retires X in the middle of the batch and keeps the region open past the
+    # next batch: X must wait for the unlock (the low water mark has to be sampled afresh for every reclaim_start_from)
+    ("d.burst", 128, "P2000,R128,B,W,S|Q121,L,R,Z20000,U", 50),
+    ("d.burst2", 256, "P2000,R256,B,W,S|Q249,L,R,Z20000,U|Q121,L,Z30000,U", 50),
+    ("d.burst3", 128, "P1500,R128,B,Q129,R128,W,S|Q121,L,R,Z9000,U,Q250,L,R,R,Z9000,U", 50),
 ]
+
+
+def gen_burst(rng):
+    """-> (min-capacity, program): a full batch queued before start(), slow reclaimers, other threads open a region and
+    retire in the middle of a batch and hold the region for several polls."""
+    capn = rng.choice([128, 128, 256])
+    nt = 2 + rng.below(2)
+    rounds = 1 + rng.below(2)
+    t0 = ["P%d" % rng.choice([300, 1000, 2500]), "R%d" % capn, "B"]
+    for k in range(1, rounds):
+        t0 += ["Q%d" % (capn * k + 1), "R%d" % capn]
+    t0 += ["W", "S"]
+    others = []
+    for _ in range(nt - 1):
+        th = []
+        for k in range(rounds):
+            q = capn * k + 1 + rng.below(capn - 8)
+            th += ["Q%d" % q, "L"] + ["R"] * (1 + rng.below(2)) + ["Z%d" % rng.choice([3000, 9000, 20000]), "U"]
+        others.append(th)
+    return capn, "|".join(",".join(t) for t in [t0] + others)
 
 
 def main(argv):
@@ -184,6 +211,9 @@ def main(argv):
                 seen.add((bits, p))
                 progs.append(("%s%d" % ("s" if small else "b", len(progs)), 1 << bits, p, small))
                 cnt += 1
+        for i in range(10 if not thorough else 60):
+            mc, p = gen_burst(rng)
+            progs.append(("u%d" % i, mc, p, False))
         for name, mc, p, _ in DIRECTED:
             progs.append((name, mc, p, False))
         nsched = 28 if not thorough else 100
@@ -200,6 +230,8 @@ def main(argv):
                     scheds[pid] = [(rng.below(1 << 31), [0, 3][i % 2], sn) for i in range(70 if not thorough else 300)]
                 else:
                     scheds[pid] = [(s, st, sn) for s, st, _ in base[:6]]
+            elif pid.startswith("u"):
+                scheds[pid] = [(s, st, 50) for s, st, _ in base[:4 if not thorough else 12]]
             else:
                 scheds[pid] = base if small else base[:10 if not thorough else 40]
     lines = []
@@ -277,7 +309,9 @@ def main(argv):
                        "on its own accessor; 'free' programs keep total pushes <= capacity and let retire race with stop, "
                        "'barrier' programs overfill queues of capacity 1..8 and stop after a client barrier; directed "
                        "cases: stop with a region held open across the collector's last poll, queue of 1 full behind a "
-                       "held-back head, restart, > 1 batch (1024) queued, retire before start, retire racing stop; the "
+                       "held-back head, restart, > 1 batch (1024) queued, retire before start, retire racing stop; burst cases "
+                       "(capacity 128/256 filled before start, a whole batch reclaimed in one go with slow reclaimers, a region "
+                       "opened + a retire in the middle of the batch, region held past the next batch); the "
                        "step length varies from 50 ns to 1 ms so that the collector's 1-100 ms back-off sleeps end in "
                        "every phase of the client programs; distinct non-trivial = distinct (program, observed outcome); "
                        "small programs are explored exhaustively in the extracted model and every implementation outcome "
